@@ -29,9 +29,16 @@ type Op struct {
 	Data []byte `json:"data,omitempty"`
 	Sec  int64  `json:"sec,omitempty"`
 	N    int    `json:"n,omitempty"`
+	// Fault (C03): the store behind the file system fails the Fault-th call it gets during this step (0 = none)
+	Fault int `json:"fault,omitempty"`
 }
 
 func (o Op) String() string {
+	if o.Fault > 0 {
+		f := o.Fault
+		o.Fault = 0
+		return fmt.Sprintf("%s[store call %d fails]", o.String(), f)
+	}
 	switch o.K {
 	case "mkdir", "mkdirall", "chmod":
 		return fmt.Sprintf("%s(%q,%#o)", o.K, o.P, o.Perm)
